@@ -1204,6 +1204,28 @@ def _agree(vals, what):
     return vals.pop()
 
 
+def _single_binding(fn, expr):
+    """The value of a local name bound exactly once by a plain assignment (a named intermediate result); else expr."""
+    for _ in range(3):
+        if not (isinstance(expr, ast.Name) and expr.id not in _fn_params(fn)):
+            break
+        vals = [val for names, val in _bindings(fn) if expr.id in names]
+        plain = [st for st in ast.walk(fn) if isinstance(st, (ast.Assign, ast.AnnAssign)) and st.value is not None and any(
+            isinstance(t, ast.Name) and t.id == expr.id for t in (st.targets if isinstance(st, ast.Assign) else [st.target]))]
+        if len(vals) != 1 or len(plain) != 1:
+            break
+        expr = plain[0].value
+    return expr
+
+
+def _as_dict(expr):
+    """`dict(k=v, ...)` as the literal `{"k": v, ...}`."""
+    if _is_call_to(expr, {"dict"}) and not expr.args and all(k.arg is not None for k in expr.keywords):
+        return ast.copy_location(ast.Dict(keys=[ast.Constant(value=k.arg) for k in expr.keywords],
+                                          values=[k.value for k in expr.keywords]), expr)
+    return expr
+
+
 def seeding_rows(obs, dsk, fit, cal) -> list:
     rows = []
     # ---- observation, loop path: run_pipelines -> [ _run_single_pipeline(el) for el in parameters ] -> run_pipeline
@@ -1249,7 +1271,7 @@ def seeding_rows(obs, dsk, fit, cal) -> list:
             if ast.unparse(c.func).split(".")[-1] == callee:
                 out.append(seed_kind(_kw(c, "pipeline_seed"), fn, where))
             else:
-                kwargs = _kw(c, "kwargs")
+                kwargs = _as_dict(_single_binding(fn, _kw(c, "kwargs")))
                 if not isinstance(kwargs, ast.Dict) and _kw(c, "pipeline_seed") is not None:
                     out.append(seed_kind(_kw(c, "pipeline_seed"), fn, where))     # functools.partial(callee, pipeline_seed=..)
                     continue
